@@ -137,6 +137,13 @@ def hold_gil(started=None):
     return sum(range(10 ** 11))
 
 
+def big_after_start(n, started=None):
+    """returns a result far bigger than the pipe buffer: the child blocks half way through handing it over until somebody reads"""
+    if started:
+        open(started, 'w').close()
+    return make_bytes(n)
+
+
 def stop_self(started=None):
     if started:
         open(started, 'w').close()
